@@ -19,15 +19,16 @@ def members : JVal → List (Bytes × JVal)
 /-- the `while (node)` scan for the first member with the patch member's key -/
 def findKey (ms : List (Bytes × JVal)) (k : Bytes) : Option Nat := ms.findIdx? (fun p => p.1 == k)
 
+/-- a missing or non-object target becomes an empty object first -/
+def targetMembers : Option JVal → List (Bytes × JVal)
+  | some t => members t
+  | none => []
+
 /-- `_jbl_merge_patch_node(target, patch, pool, &rc)`: the value of the node it returns.
     `target = none` is the C call with `target == 0` (a member that does not exist yet). -/
 def mergeNode (target : Option JVal) (patch : JVal) : JVal :=
   match patch with
   | .obj pms =>
-    -- a missing or non-object target becomes an empty object first
-    let t0 : List (Bytes × JVal) := match target with
-      | some t => members t
-      | none => []
     .obj (pms.attach.foldl (fun tms ⟨p, _⟩ =>
       if isNull p.2 then
         match findKey tms p.1 with
@@ -37,7 +38,7 @@ def mergeNode (target : Option JVal) (patch : JVal) : JVal :=
         match findKey tms p.1 with
         | some i => tms.modify i fun q => (q.1, mergeNode (some q.2) p.2)   -- `_jbl_copy_node_data(node, src)`
         | none => tms ++ [(p.1, mergeNode none p.2)]                        -- `_jbn_add_item`
-      ) t0)
+      ) (targetMembers target))
   | p => p
 decreasing_by all_goals (simp_wf; exact Patch.snd_lt (by assumption))
 
